@@ -336,6 +336,7 @@ func TestCheck(t *testing.T) {
 		return
 	}
 	faultPoints(t, rep, shard, of, "")
+	hookPanics(t, rep, shard, of)
 	idx := 0
 	for a := 0; a < len(os); a++ {
 		for b := a; b < len(os); b++ {
